@@ -194,11 +194,12 @@ func buildAlphabet() {
 		add(&entry{k: kBool, name: fmt.Sprintf("AddASN1Boolean(%v)", v), class: "AddASN1Boolean", b: v, enc: mustStd(v, ""), elemTag: 0x01})
 	}
 	add(&entry{k: kNull, name: "AddASN1NULL()", class: "AddASN1NULL", enc: mustStd(stdasn1.NullRawValue, ""), elemTag: 0x05})
-	for _, n := range []int{0, 1, 127, 128, 256, 65536} {
+	// lengths on both sides of every DER length-form boundary (0x7f/0x80, 0xff/0x100, 0xffff/0x10000)
+	for _, n := range []int{0, 1, 127, 128, 255, 256, 65535, 65536} {
 		d := pat(n, 13, 1)
 		add(&entry{k: kOctet, name: fmt.Sprintf("AddASN1OctetString(len %d)", n), class: "AddASN1OctetString", data: d, enc: mustStd(d, ""), elemTag: 0x04})
 	}
-	for _, n := range []int{0, 1, 128} {
+	for _, n := range []int{0, 1, 126, 127, 254, 255} {
 		d := pat(n, 5, 0x81)
 		add(&entry{k: kBit, name: fmt.Sprintf("AddASN1BitString(len %d)", n), class: "AddASN1BitString", data: d, enc: mustStd(stdasn1.BitString{Bytes: d, BitLength: 8 * n}, ""), elemTag: 0x03})
 	}
